@@ -114,7 +114,11 @@ FMTS = [0, 1, 2, 3]
 ERRTAG = {"SigmaValueError": 1, "SigmaPlaceholderError": 2, "SigmaTypeError": 3, "SigmaConditionError": 4,
           "SigmaRegularExpressionError": 5, "SigmaModifierError": 6, "SigmaTransformationError": 7,
           "SigmaSecurityError": 8, "SigmaConfigurationError": 9}
-MODID = {"SigmaStartswithModifier": 1, "SigmaExpandModifier": 2, "SigmaRegularExpressionModifier": 3}
+MODID = {"SigmaStartswithModifier": 1, "SigmaExpandModifier": 2, "SigmaRegularExpressionModifier": 3,
+         "SigmaContainsModifier": 4, "LContains": 5}
+# value types each modifier class's modify() is annotated to take (0 string, 1 number); LContains (registered by the
+# harness for the duration of a case) derives from SigmaContainsModifier and also takes numbers
+ACCEPTS = [[], [0], [0], [0], [0], [0, 1]]
 
 # condition trees: ["id", n] | ["not", t] | ["and", [t..]] | ["or", [t..]]
 def show_cond(t, top=True):
@@ -141,10 +145,12 @@ BROKEN_CONDS = ["sel and", "sel flt", "sel | count() > 1"]   # ParseException / 
 
 FIELDS = ["f", "g", "h", "fieldA", "fieldC", "k"]
 VALUES = [("num", "1"), ("num", "2"), ("str", "a"), ("str", "b"), ("star", "a"), ("sw", "b"), ("ph", "x"), ("ph", "hosts"), ("re", "ab"),
+          ("ct", "a"), ("lc", "46"), ("lc", "b"), ("ct", "b"),
           ("ph", "backend_index"), ("ph", "uv"), ("ph", "cv"), ("ph", "backend"), ("ph", "output_format"), ("ph", "backend_ns")]
 
 BAD = {
-    "type": ("title: b\nlogsource:\n  product: windows\ndetection:\n  sel:\n    f|startswith: 1\n  condition: sel\n", 3, [1]),
+    "type": ("title: b\nlogsource:\n  product: windows\ndetection:\n  sel:\n    f|startswith: 1\n  condition: sel\n", None, [(1, 1)]),
+    "type2": ("title: b\nlogsource:\n  product: windows\ndetection:\n  sel:\n    f|contains: 46\n  condition: sel\n", None, [(4, 1)]),
     "mod": ("title: b\nlogsource:\n  product: windows\ndetection:\n  sel:\n    f|foo: 1\n  condition: sel\n", 6, []),
     "nocond": ("title: b\nlogsource:\n  product: windows\ndetection:\n  sel:\n    f: 1\n", 4, []),
 }
@@ -193,7 +199,9 @@ R_IDX = {"bad": None, "raw": None, "product": 1, "dets": [["sel", [["idx", "ph",
 R_VARS = {"bad": None, "raw": None, "product": 1, "dets": [["sel", [["f", "ph", "uv"]]], ["flt", [["h", "ph", "cv"], ["k", "ph", "output_format"]]]], "conds": ["sel", "not flt"]}
 R_BK = {"bad": None, "raw": None, "product": 2, "dets": [["sel", [["f", "ph", "backend"], ["g", "ph", "backend_ns"]]]], "conds": ["not sel"]}
 VAR_RULES = [R_IDX, R_VARS, R_BK]
-FIXED_RULES = [R_WIN, R_LIN, R_PH, R_NEG, R_UNDEF, R_C, R_HOSTS, R_HOSTS_L, R_RE, R_IDX, R_VARS, R_BK]
+R_CT = {"bad": None, "raw": None, "product": 1, "dets": [["sel", [["fieldA", "ct", "a"]]], ["flt", [["g", "ct", "b"]]]], "conds": ["sel and not flt"]}
+R_LC = {"bad": None, "raw": None, "product": 1, "dets": [["sel", [["fieldA", "lc", "46"]]], ["flt", [["g", "lc", "b"]]]], "conds": ["sel and not flt"]}
+FIXED_RULES = [R_WIN, R_LIN, R_PH, R_NEG, R_UNDEF, R_C, R_HOSTS, R_HOSTS_L, R_RE, R_IDX, R_VARS, R_BK, R_CT, R_LC]
 
 FILTERS = [
     {"product": 1, "dets": [["sel", [["g", "num", "1"]]]], "cond": "not sel"},
@@ -328,6 +336,14 @@ def gen_history(tier, rng):
                     qx.append(mk_case([d, d, 0], [["new", cls, 0, False], ["rule", 0, first, fmt], ["new", cls, None, False], ["rule", 1, probe, fmt]]))
                     qx.append(mk_case([d, d, 0], [["new", cls, 0, False], ["rule", 0, first, fmt], ["new", cls, 0, False], ["coll", 1, [probe, first], fmt]]))
     out += qx if tier != "quick" else qx[:10] + rng.sample(qx, 200)
+    # modifier type-hint cache: a harness-registered subclass of a built-in modifier with a wider value type, loaded
+    # before / after rules using the built-in one (valid, or failing its type check), by load and by conversions
+    for cls in (0, 1, 2):
+        for first in ([["load", R_CT]], [["load", bad_rule("type2")]], [["rule", 0, R_CT, 0]], [["coll", 0, [R_CT, R_WIN], 0]], [["load", R_LC]],
+                      [["rule", 0, R_LC, 0]], [["load", bad_rule("type")], ["load", R_CT]], []):
+            for probe in (["rule", 0, R_LC, 0], ["coll", 0, [R_LC, R_CT], 2], ["rule", 0, R_CT, 3]):
+                out.append(mk_case([1, 2, 0], [["new", cls, 0, False]] + first + [probe]))
+                out.append(mk_case([1, 2, 0], [["new", cls, 0, True]] + first + [["new", cls, None, False], [probe[0], 1] + probe[2:]]))
     optcases = []
     for cls in (0, 1, 4, 5, 6):
         for d in VAR_PDEFS[:3]:
@@ -389,16 +405,17 @@ def c_item(d):
     else: tr = "TFail"
     return f"(Build_item {iid} {cond} {tr})"
 
-KIND = {"num": "VNum", "str": "VStr", "star": "VStar", "sw": "VStar", "ph": "VPh", "re": "VRe"}
-MODOF = {"sw": 1, "ph": 2, "re": 3}
+KIND = {"num": "VNum", "str": "VStr", "star": "VStar", "sw": "VStar", "ph": "VPh", "re": "VRe", "ct": "VCt", "lc": "VCt"}
+MODOF = {"sw": 1, "ph": 2, "re": 3, "ct": 4, "lc": 5}
+def c_mods(mods): return clist(f"({m}, {t})" for m, t in mods)
 def c_rule(r):
     if r["bad"]:
         _, tag, mods = BAD[r["bad"]]
-        return f"(Build_rule (Some {tag}) {clist(str(m) for m in mods)} 0 [] [] [] [])"
-    mods = [MODOF[k] for _, items in r["dets"] for _, k, _ in items if k in MODOF]
+        return f"(Build_rule {copt(str(tag) if tag is not None else None)} {c_mods(mods)} 0 [] [] [] [])"
+    mods = [(MODOF[k], 1 if (k == "lc" and t.isdigit()) else 0) for _, items in r["dets"] for _, k, t in items if k in MODOF]
     dets = clist("(" + cstr(n) + ", " + clist(f"(Build_ditem {cstr(f)} {cstr(t)} {KIND[k]})" for f, k, t in items) + ")"
                  for n, items in r["dets"])
-    return f"(Build_rule None {clist(str(m) for m in mods)} {r['product']} {dets} {clist(cstr(c) for c in r['conds'])} {clist(cstr(f) for f in r.get('fields', []))} [])"
+    return f"(Build_rule None {c_mods(mods)} {r['product']} {dets} {clist(cstr(c) for c in r['conds'])} {clist(cstr(f) for f in r.get('fields', []))} [])"
 
 def c_tree(t):
     if t[0] == "id": return f"(PId {cstr(t[1])})"
@@ -474,7 +491,10 @@ def c_iout(o):
     return f"(Build_iout {c_res(o['r'])} {errs} {snap} {i['hits']} {i['misses']} {hints} {cbool(i['tpl_ok'])} {vc})"
 
 def history_to_coq(c, r):
-    if "exc" in r: return None
+    if "exc" in r:
+        # the implementation-side run of the whole history failed (exceptions of the code under test are outcomes of
+        # single operations and never end here): judged with no agreement and a rejecting oracle, never skipped
+        return "(mk_env [] [] [] [] [] [] [] [] [] [] [] [] [], @nil op, @nil iout, @None iout, @nil iout)"
     conds = []
     mops = model_ops(c["ops"])
     for rule in rules_of(mops):
@@ -494,7 +514,8 @@ def history_to_coq(c, r):
            clist(clist(f"({f}, {c_vars(v)})" for f, v in k.get("fmtvars", {}).items()) for k in c["classes"]) + " " +
            clist(c_vars(pd_vars(c["pdefs"][u])) for u in c["users"]) + " " +
            clist(copt(cstr(k["qexpr"]) if k.get("qexpr") else None) for k in c["classes"]) + " " +
-           clist(clist(f"({cstr(a)}, {cstr(b)})" for a, b in k.get("sdef", {}).items()) for k in c["classes"]) + ")")
+           clist(clist(f"({cstr(a)}, {cstr(b)})" for a, b in k.get("sdef", {}).items()) for k in c["classes"]) + " " +
+           clist(clist(str(t) for t in a) for a in ACCEPTS) + ")")
     ops = clist(c_op(o) for o in mops)
     iouts = clist(c_iout(o) for o in r["outs"])
     fresh = f"(Some {c_iout(r['fresh'])})" if r["fresh"] is not None else "(@None iout)"
@@ -587,8 +608,8 @@ def readers_check(tier, seed):
         if not (owns and fmt):
             known += 1       # D18 / D30 input classes: outside the claim
             continue
-        if "exc" in r:
-            problems.append(Problem("internal", "readers", c, {"impl": r})); continue
+        if "exc" in r:   # (exceptions of the code under test are recorded per operation; this is the run as a whole)
+            problems.append(Problem("violation", "readers", c, {"impl": r, "why": "the implementation-side run of the history raised"})); continue
         a, f = r["outs"][-1], r["fresh"]
         same = (a["r"], a.get("errs"), a.get("snap")) == (f["r"], f.get("errs"), f.get("snap"))
         key = a["r"][0]
@@ -645,7 +666,9 @@ PROPERTY = Property(
          "query_expression reads {state[key]} over ChainMap(rule's pipeline state, class-level state_defaults) (own defaults, class-level "
          "conditional set_state, no default -> KeyError, inherited base-class dict) x pipelines with conditional set_state x order (rule with the "
          "state set first / probe first) x same backend by convert / convert_rule, new backend of the class with its own, the shared, or no "
-         "pipeline; every dict / list / set attribute of the backend classes and their bases compared with its initial value after every operation. Exhaustive: all histories of <= 1 (quick) / <= 2 "
+         "pipeline; every dict / list / set attribute of the backend classes and their bases compared with its initial value after every operation; rules "
+         "with |contains and with a harness-registered |lcontains (subclass of the contains modifier taking numbers too) loaded / converted in "
+         "both orders, incl. documents failing the type check. Exhaustive: all histories of <= 1 (quick) / <= 2 "
          "(thorough) operations from a 17-operation alphabet after two backend creations in 3 sharing setups x all 14 probes (6 of them at length 2), sampled at the next "
          "length (70 / 400 histories x 2 probes per setup); 400 / 6000 random histories of 2..8 operations incl. collections with a filter document. The last operation is the probe; oracle = same probe with new class objects, new "
          "pipeline objects from the same YAML and cleared caches. non-trivial = probe is a conversion preceded by at least one "
